@@ -19,7 +19,9 @@ Binding (both directions):
 """
 from __future__ import annotations
 
+import contextlib
 import copy
+import io
 import json
 import random
 import time
@@ -117,6 +119,14 @@ def inventory_traces(label: str, cfg: Dict[str, Any], origin: str) -> Tuple[List
 def pair_traces(label: str, cfg: Dict[str, Any], variants: List[str], steps: int, seed: int, origin: str,
                 notes: Dict[str, int]) -> List[Dict[str, Any]]:
     base = rc.run_trajectory(cfg, steps, seed)
+    again = rc.run_trajectory(cfg, steps, seed)
+    if (base["loose"], base["agents"], base["exc"]) != (again["loose"], again["agents"], again["exc"]):
+        # the SAME text does not repeat its trajectory under one seed: determinism is C03's matter, and a difference
+        # between variants could not be attributed to the re-serialisation
+        notes["scenarios_not_repeatable_under_one_seed_skipped"] = notes.get("scenarios_not_repeatable_under_one_seed_skipped", 0) + 1
+        return []
+    if base["exc"]:
+        notes["trajectories_cut_short_by_an_exception_in_step"] = notes.get("trajectories_cut_short_by_an_exception_in_step", 0) + 1
     out = []
     for v in variants:
         vcfg, text = rc.variant(cfg, v)
@@ -182,6 +192,13 @@ def judge(chk: common.Check, traces: List[Dict[str, Any]], res: Dict[str, Any], 
         for clause in fail:
             per_clause[clause] = per_clause.get(clause, 0) + 1
             facts = _facts(diffs.get(clause))
+            if clause == "NoShadowedLeftovers":  # one signature per shadowed piece of software
+                for name in sorted({f["key"][1] for f in facts}):
+                    chk.violation({"module": MODULE, "event": "Built", "clause": clause, "software": name},
+                                  {"meta": tr.get("meta"), "cfg": tr.get("cfg"), "leftover_instances": [f for f in facts if f["key"][1] == name],
+                                   "declared_software": [f for f in event["declared"] if f["kind"] == "software"],
+                                   "stimulus": tr.get("stimulus")})
+                continue
             sig = {"module": MODULE, "event": event.get("ev"), "clause": clause, "node_type": tr["cfg"].get("type", ""),
                    "items": sorted({_shape(f) for f in facts})[:8]}
             if clause == "Loads":
@@ -232,7 +249,10 @@ def _software_mix(m: int, own_ip: str, other_ip: str) -> Tuple[List[Dict], List[
     if m == 4:
         return [{"type": "ftp-server", "options": {"server_password": "ftppw"}}, {"type": "ntp-server"}], []
     if m == 5:  # software that the node type already has as system software, configured
-        return ([{"type": "dns-client", "options": {"dns_server": other_ip}}, {"type": "ntp-client", "options": {"ntp_server_ip": other_ip}}],
+        # (the NTP server address is one where nobody lives: an NTP request delivered to a node that only runs an NTP
+        #  client raises AttributeError in this tree - a totality matter of C01, kept out of C20's trajectories)
+        free = own_ip.rsplit(".", 1)[0] + ".14"
+        return ([{"type": "dns-client", "options": {"dns_server": other_ip}}, {"type": "ntp-client", "options": {"ntp_server_ip": free}}],
                 [{"type": "web-browser", "options": {"target_url": "http://arcd.com/users/"}}])
     if m == 6:
         return [], [
@@ -367,10 +387,11 @@ def member_to_cfg(m: Dict[str, Any]) -> Dict[str, Any]:
     nodes.append(netnode)
     # agents
     agents: List[Dict[str, Any]] = []
+    # (no action executes a web browser: one without target_url raises ValidationError out of step() - C01's matter)
     acts = [
         {"action": "do-nothing", "options": {}},
-        {"action": "node-application-execute", "options": {"node_name": "h1", "application_name": "web-browser"}},
-        {"action": "node-application-execute", "options": {"node_name": "h2", "application_name": "web-browser"}},
+        {"action": "node-service-stop", "options": {"node_name": "h1", "service_name": "dns-client"}},
+        {"action": "node-service-start", "options": {"node_name": "h1", "service_name": "dns-client"}},
         {"action": "node-shutdown", "options": {"node_name": "h2"}},
         {"action": "node-startup", "options": {"node_name": "h2"}},
     ]
@@ -378,7 +399,7 @@ def member_to_cfg(m: Dict[str, Any]) -> Dict[str, Any]:
         if kind == "periodic":
             agents.append({"ref": "green_periodic", "team": "GREEN", "type": "periodic-agent",
                            "agent_settings": {"start_step": 2, "start_variance": 1, "frequency": 3, "variance": 1,
-                                              "possible_start_nodes": ["h1"], "target_application": "web-browser"}})
+                                              "possible_start_nodes": ["h1"], "target_application": "nmap"}})
         elif kind == "probabilistic":
             agents.append({"ref": "green_prob", "team": "GREEN", "type": "probabilistic-agent",
                            "agent_settings": {"action_probabilities": {0: 0.4, 1: 0.3, 2: 0.3}},
@@ -463,3 +484,285 @@ def generated_members(n: int, seed: int) -> Tuple[List[Tuple[str, Dict[str, Any]
         out.append((f"gen/{i}", member_to_cfg(st), st))
     info_all["distinct_members"] = len(out)
     return out, info_all
+
+
+# ---------------------------------------------------------------------------------------
+# node sets: only what the adder's schema / node_sets.rst declares is constrained
+# ---------------------------------------------------------------------------------------
+
+
+def _restrict_node_set_traces(cfg: Dict[str, Any], traces: List[Dict[str, Any]], notes: Dict[str, int]) -> List[Dict[str, Any]]:
+    """Infrastructure an office-lan adder creates on its own (switches, router, their links) is not declared item by
+    item: those nodes/links are left unconstrained (counted in the evidence)."""
+    net = (cfg.get("simulation") or {}).get("network") or {}
+    if not net.get("node_sets"):
+        return traces
+    out = []
+    for tr in traces:
+        ev = tr["ev"][0]
+        if ev["ev"] != "Built":
+            out.append(tr)
+            continue
+        if tr["cfg"]["scope"] == "node" and not any(f["kind"] == "node" for f in ev["declared"]):
+            notes["node_set_infrastructure_nodes_unconstrained"] = notes.get("node_set_infrastructure_nodes_unconstrained", 0) + 1
+            continue
+        if tr["cfg"]["scope"] == "net":
+            declared_hosts = {str(n.get("hostname")) for n in net.get("nodes") or []}
+            ev["built"] = [f for f in ev["built"] if f["kind"] != "link" or (f["key"][0] in declared_hosts and f["key"][2] in declared_hosts)]
+        out.append(tr)
+    return out
+
+
+# ---------------------------------------------------------------------------------------
+# binding self-test: a flipped / dropped / added fact must be rejected by the right clause
+# ---------------------------------------------------------------------------------------
+
+
+def binding_selftest(accepted: List[Dict[str, Any]]) -> Dict[str, int]:
+    """Take accepted traces and (a) drop the built fact of a declared item, (b) flip a pinned value of it, (c) add an
+    item nobody declared: every mutant must be rejected, by the clause of its fact kind."""
+    muts: List[Tuple[str, Dict[str, Any]]] = []
+    kinds = ["node", "nic", "link", "route", "defroute", "acl", "software", "opt", "user", "file", "agent", "nports"]
+
+    def candidates(kind):
+        for t in accepted:
+            e = t["ev"][0]
+            if e["ev"] != "Built":
+                continue
+            for d in e["declared"]:
+                if d["kind"] != kind or not d["val"] or d["val"][-1] in ("", "*") or (kind == "user" and d["key"][1] == "admin"):
+                    continue
+                if kind == "route" and d["key"][2] == "":
+                    continue
+                if kind == "file" and "." in d["key"][2] and not d["val"][0]:
+                    continue
+                idx = [i for i, f in enumerate(e["built"]) if f["kind"] == kind and f["key"] == d["key"]]
+                if idx:
+                    yield t, d, idx[0]
+
+    for kind in kinds:
+        c = next(candidates(kind), None)
+        if c is None:
+            continue
+        src, d, i = c
+        clause = CLAUSE_OF_KIND[kind]
+        t = copy.deepcopy(src)  # (a) drop
+        t["ev"][0]["built"] = [f for f in t["ev"][0]["built"] if not (f["kind"] in (kind, "optattr") and f["key"] == d["key"])]
+        muts.append((clause, t))
+        t = copy.deepcopy(src)  # (b) flip the pinned value
+        f = t["ev"][0]["built"][i]
+        j = 0 if kind in ("node", "file") and d["val"][0] not in ("", "*") else len(f["val"]) - 1
+        f["val"][j] = f["val"][j] + "~"
+        for g in t["ev"][0]["built"]:
+            if g["kind"] == "optattr" and kind == "opt" and g["key"] == d["key"]:
+                g["val"][0] = g["val"][0] + "~"
+        muts.append((clause, t))
+        if kind in ("link", "route", "defroute", "acl", "software", "user", "file", "agent"):
+            t = copy.deepcopy(src)  # (c) an extra item
+            f = copy.deepcopy(t["ev"][0]["built"][i])
+            f["key"][-1] = f["key"][-1] + "~x"
+            if kind == "defroute":
+                f["key"][0] = d["key"][0]
+                t["ev"][0]["built"] = [g for g in t["ev"][0]["built"] if g["kind"] != "defroute"]
+                t["ev"][0]["declared"] = [g for g in t["ev"][0]["declared"] if g["kind"] != "defroute"]
+            t["ev"][0]["built"].append(f)
+            muts.append((clause, t))
+    src = next((t for t in accepted if t["ev"][0]["ev"] == "Built" and t["cfg"]["scope"] == "node"), None)
+    if src is not None:
+        t = copy.deepcopy(src)
+        t["ev"][0]["built"].append(rc.F("leftover", [t["cfg"]["host"], "dns-client"], ["service", "DNSClient", "RUNNING"]))
+        muts.append(("NoShadowedLeftovers", t))
+        t = copy.deepcopy(src)
+        for f in t["ev"][0]["built"]:
+            if f["kind"] == "node":
+                f["val"][1] = "BOOTING"
+        muts.append(("InitialStateAsDeclared", t))
+        t = copy.deepcopy(src)
+        t["ev"] = [_ev("Raised", exc="KeyError")]
+        muts.append(("Loads", t))
+    pair = next((t for t in accepted if t["ev"][0]["ev"] == "Pair"), None)
+    if pair is not None:
+        t = copy.deepcopy(pair)
+        t["ev"][0]["b"][-1] = (t["ev"][0]["b"][-1] + 1) % (2 ** 28)
+        muts.append(("SameTrajectoryUnderReordering", t))
+    if len(muts) < 10:
+        raise tlc.TLCError("binding self-test: too few accepted traces to mutate")
+    res = tlc.validate("ConfigSemTrace", [t for _, t in muts], chunk=200)
+    bad = []
+    by_clause: Dict[str, int] = {}
+    for (clause, t), (reached, length), st in zip(muts, res["results"], res["stuck"]):
+        if reached == length + 1 or clause not in ((st or {}).get("fail") or []):
+            bad.append((clause, t["cfg"], (st or {}).get("fail")))
+        by_clause[clause] = by_clause.get(clause, 0) + 1
+    if bad:
+        raise tlc.TLCError(f"binding self-test: {len(bad)} mutated trace(s) not rejected by their clause: {bad[:3]}")
+    return {"mutants_rejected": len(muts), "by_clause": by_clause}
+
+
+# ---------------------------------------------------------------------------------------
+# main
+# ---------------------------------------------------------------------------------------
+
+
+QUICK_PAIR = {"data_manipulation.yaml", "basic_lan_network_example.yaml", "client_server_p2p_network_example.yaml",
+              "multi_lan_internet_network_example.yaml", "basic_firewall.yaml", "dmz_network.yaml", "basic_node_with_users.yaml",
+              "nodes_with_initial_files.yaml", "wireless_wan_network_config.yaml", "software_fixing_duration.yaml",
+              "basic_node_with_software_listening_ports.yaml", "basic_c2_setup.yaml"}
+
+
+def _n_nodes(cfg: Dict[str, Any]) -> int:
+    return len(((cfg.get("simulation") or {}).get("network") or {}).get("nodes") or [])
+
+
+def main(tier: str, seed: int) -> int:
+    chk = common.Check(PROP, "model_checking", tier, seed)
+    thorough = tier == "thorough"
+    notes: Dict[str, int] = {}
+    phases: Dict[str, float] = {}
+    t_phase = [time.time()]
+
+    def mark(name: str):
+        phases[name] = round(phases.get(name, 0) + time.time() - t_phase[0], 1)
+        t_phase[0] = time.time()
+
+    # 1. the model: every order of independent build steps yields Expected(decl)
+    r = tlc.mc("MC_ConfigSem")
+    if not r["ok"]:
+        chk.violation({"module": "MC_ConfigSem", "clause": str(r["violation"])}, {"tlc": r["output_tail"]})
+    chk.add_mc("MC_ConfigSem(2 declarations: 17 + 16 facts, all build orders)", r)
+    for act in ("MCAddNode", "MCConfigure", "MCSetPorts", "MCAddNic", "MCConnect", "MCAddRoute", "MCAddRule", "MCInstall",
+                "MCSetOption", "MCAddUser", "MCCreateFile", "MCAddAgent"):
+        if r["coverage"].get(act, (0, 0))[1] == 0:
+            raise tlc.TLCError(f"vacuous model: action {act} never taken")
+
+    mark("mc")
+    # 2. the family
+    n_members = 60 if not thorough else 1500
+    members, ginfo = generated_members(n_members, seed)
+    chk.cov["transitions"] += ginfo["states"]
+    chk.cov["scenario_gen"] = ginfo
+    if len(members) < n_members * 0.9:
+        raise tlc.TLCError(f"ScenarioGen produced only {len(members)} distinct members")
+
+    mark("scenario_gen")
+    common.boot()
+    mark("boot")
+    sink = io.StringIO()  # the airspace prints to stdout when a capacity is overridden
+    steps = 10
+    variants = ["sorted_block", "reversed_flow"] + (["rsorted_quoted"] if thorough else [])
+    traces: List[Dict[str, Any]] = []
+    skipped_assets: Dict[str, str] = {}
+    t_build = time.time()
+
+    # 3. shipped scenarios, scheduled episodes, test assets
+    shipped = shipped_scenarios()
+    n_scen = 0
+    n_pairs_shipped = 0
+    stack = contextlib.ExitStack()
+    stack.enter_context(contextlib.redirect_stdout(sink))
+    for label, cfg in shipped:
+        trs, game = inventory_traces(label, cfg, "shipped")
+        if game is None and label.startswith("asset/"):
+            # in scope are the test assets THAT LOAD (several are deliberately broken or need plug-ins)
+            skipped_assets[label] = trs[0]["meta"]["exception"][:160]
+            continue
+        n_scen += 1
+        traces += _restrict_node_set_traces(cfg, trs, notes)
+        chk.add_case({"scenario": label})
+        if game is not None and ((cfg.get("simulation") or {}).get("defaults")):
+            notes["scenarios_with_simulation.defaults_block_not_read_by_the_loader"] = notes.get(
+                "scenarios_with_simulation.defaults_block_not_read_by_the_loader", 0) + 1
+        small = _n_nodes(cfg) <= 15
+        if game is None:
+            continue
+        if thorough:
+            if not small and "#episode" in label and not label.endswith(("#episode0", "#episode7")):
+                continue  # the 20 UC7 episodes share one 41-node base scenario: two of them are stepped
+        elif not (small and "#episode" not in label and label.split("/")[-1] in QUICK_PAIR):
+            continue
+        traces += pair_traces(label, cfg, variants, steps, seed + 1, "shipped", notes)
+        n_pairs_shipped += 1
+    mark("shipped")
+    chk.cov["shipped_scenarios_stepped_under_reordering"] = n_pairs_shipped
+    chk.cov["shipped_and_asset_scenarios_validated"] = n_scen
+    chk.cov["assets_not_loading_skipped"] = skipped_assets
+
+    # 4. generated members and probes
+    for label, cfg, st in members:
+        trs, game = inventory_traces(label, cfg, "generated")
+        for t in trs:
+            t["stimulus"]["member"] = st
+        traces += trs
+        chk.add_case({"member": st})
+        if game is not None:
+            pt = pair_traces(label, cfg, variants, steps, seed + 2, "generated", notes)
+            for t in pt:
+                t["stimulus"]["member"] = st
+            traces += pt
+    for label, cfg in probes():
+        trs, game = inventory_traces(label, cfg, "probe")
+        for t in trs:
+            t["stimulus"]["config_network"] = cfg.get("simulation", {}).get("network", {}).get("node_sets") or cfg.get("defaults")
+        traces += _restrict_node_set_traces(cfg, trs, notes)
+        chk.add_case({"probe": label})
+        if game is not None and thorough:
+            traces += pair_traces(label, cfg, variants[:2], steps, seed + 3, "probe", notes)
+    stack.close()
+    mark("generated")
+    chk.cov["generated_members_validated"] = len(members)
+    chk.cov["build_and_step_wall_s"] = round(time.time() - t_build, 1)
+
+    # 5. drift (outside the statement): what reset does to a node declared OFF
+    try:
+        d = scenarios.dut_net("computer", 3, 3)
+        for n in d["cfg"]["simulation"]["network"]["nodes"]:
+            if n["hostname"] == d["dut"]:
+                n["operating_state"] = "OFF"
+        g = scenarios.build(d["cfg"])
+        node = g.simulation.network.get_node_by_hostname(d["dut"])
+        s0 = node.operating_state.name
+        g.setup_for_episode(episode=1)
+        chk.notes.append(f"drift (not judged): a computer declared operating_state OFF is {s0} at the return of from_config and "
+                         f"{node.operating_state.name} after setup_for_episode (what reset() calls next)")
+    except Exception as ex:  # noqa
+        chk.notes.append(f"drift probe failed: {type(ex).__name__}")
+
+    # 6. TLC judges every trace
+    res = tlc.validate("ConfigSemTrace", traces, chunk=150, timeout=1800)
+    mark("tlc_validation")
+    judge(chk, traces, res)
+    accepted = [t for t, (reached, length) in zip(traces, res["results"]) if reached == length + 1]
+    chk.cov["binding_selftest"] = binding_selftest(accepted)
+
+    mark("binding_selftest")
+    chk.cov["phase_wall_s"] = phases
+    # evidence
+    kinds: Dict[str, int] = {}
+    for t in traces:
+        for f in t["ev"][0]["declared"]:
+            kinds[f["kind"]] = kinds.get(f["kind"], 0) + 1
+    chk.cov["declared_facts_by_kind"] = kinds
+    chk.cov["trace_scopes"] = {s: sum(1 for t in traces if t["cfg"]["scope"] == s) for s in ("node", "net", "pair")}
+    chk.cov["notes_counts"] = notes
+    chk.cov["oddities_outside_the_statement"] = dict(rc.ODDITIES)
+    for t in traces[:2] + [t for t in traces if t["cfg"]["scope"] == "pair"][:1]:
+        e = t["ev"][0]
+        chk.sample({"cfg": t["cfg"], "event": e["ev"], "declared": e["declared"][:10], "built": e["built"][:10], "a": e["a"][:6], "b": e["b"][:6]})
+    for k in sorted(notes):
+        chk.notes.append(f"{k}: {notes[k]}")
+    chk.assumptions += [
+        "TLC 1.8.0 and the CommunityModules; PyYAML (yaml.safe_load / safe_dump) as the reader and writer of scenario files",
+        "the two flatteners of harness/rec_config.py (transcription of the file / reads of object attributes) and their shared value "
+        "vocabulary (port and protocol names of the documented lookup tables, IPv4 text form, bandwidth and metric in 1/1000 units)",
+        "file identity follows the file system's naming convention (name without extension + declared type -> name.<type>; a name "
+        "with an extension fixes the type)",
+        "NOT PINNED by documentation or class defaults, hence unconstrained: addresses of undeclared router/firewall ports; number "
+        "of ports of a wireless router; size of a file whose size is not declared and type of a file without declared type; "
+        "attributes of a declared user called `admin' (collides with the default administrator); operating/health state of software; "
+        "software a declared service brings along (database-service -> ftp-client) and folders software creates (database, primaite, "
+        "downloads); the router-level ACL of a firewall; nodes/links an office-lan node set creates besides its computers; default "
+        "values of options other than fixing_duration; the `defaults:' block (undocumented: judged only through `Loads')",
+        "trajectory equality is judged on an insertion-order-insensitive digest of harness.project.snapshot(game.simulation) plus the "
+        "agents' (action, parameters, response status, reward) per step; 10 seeded steps",
+    ]
+    return chk.finish()
